@@ -98,7 +98,7 @@ def gen_cases(ctx):
     for deg in (3, 5, 7):
         pats = list(itertools.product((0, 1), repeat=NB[deg] - 1))
         if ctx.quick and len(pats) > 64:
-            pats = [q for q in pats if r.random() < 0.34]
+            pats = [q for q in pats if r.random() < 0.34 or sum(q) in (0, len(q))]     # all-zero and all-non-zero always
         for pat in pats:
             args = [float(r.choice([1, 2, 4]))] + [float(r.choice([-3, -2, -1, 1, 2, 3, 5])) if b else 0.0 for b in pat]
             cases.append(("gen%d " % deg + " ".join(fcorr.argbits(x) for x in args),
@@ -117,10 +117,18 @@ def gen_cases(ctx):
                 parts.append("c3_of F64_ops %s" % cl)
             parts.append(cl)
             cases.append(("ev%d " % deg + " ".join(fcorr.argbits(v) for v in c + [x]), " ++ ".join(parts), ("ev", deg, c, x)))
-    for k in range(n):
+    for k in range(n + 12):
         ln = r.choice([1, 1, 2, 3, 4, 5, 8, 9, 16, 17])
         c = [fcorr.rand_double(r) for _ in range(ln)]
         x = fcorr.rand_double(r)
+        if k >= n:           # directed: the zero polynomial and polynomials with zero leading / trailing coefficients
+            ln = [1, 2, 4, 9][(k - n) % 4]
+            c = [0.0] * ln
+            if (k - n) // 4 == 1 and ln > 1:
+                c[0] = 3.0
+            if (k - n) // 4 == 2 and ln > 1:
+                c[-1] = -2.0
+            x = 2.0
         cases.append(("peval " + " ".join(fcorr.argbits(v) for v in c + [x]),
                       "[optf (poly_eval F64_ops %s %s)]" % (fcorr.coq_list(c), fcorr.coqf(x)), ("peval", c, x)))
         cases.append(("pevar " + " ".join(fcorr.argbits(v) for v in c + [x]),
